@@ -429,6 +429,7 @@ func (c *Client) Connect(ctx context.Context) error {
 	// a bool indicating that the loop within which it is called should
 	// exit.
 	respHandler := func(in *spb.ModifyResponse, err error) bool {
+		verifPoint("client.recv.beforeHandle")
 		log.V(2).Infof("received message on Modify stream: %s", in)
 		c.awaiting.RLock()
 		defer c.awaiting.RUnlock()
